@@ -19,7 +19,7 @@ RULE = (
     "the same pair; 1-13 outputs per task); non-trivial = >=3 tasks and >=2 edges; distinct = digest of (shape class, #tasks, #edges, in-degree multiset, ...)"
 )
 ASSUMPTIONS = ["networkx weakly_connected_components / shortest_path_length / dag_longest_path_length are the oracle", "jobs are well formed: at most one edge per (sink task, parameter)"]
-REQUIRED_COUNTERS = ["postcondition_evaluations", "components_checked", "distance_pairs_checked"]
+REQUIRED_COUNTERS = ["postcondition_evaluations", "components_checked", "distance_pairs_checked", "large_partition_cases"]
 
 _diag: dict = {}
 
@@ -123,6 +123,68 @@ def one_case(col: Collector, rng, index: int, checked, max_tasks: int):
     col.count("distance_pairs_checked", _diag.get("pairs", 0))
 
 
+def one_large_partition(col: Collector, rng, index: int):
+    """The partition clause at a size no full precompute can be afforded at (the pure-Python distance matrix is cubic): the real
+    `decompose` on a job of 1500-4000 tasks made of a deep chain or ladder, a few side components and isolated tasks, fed with the
+    edge maps `precompute` builds; compared with weakly connected components computed by union-find."""
+    from collections import defaultdict
+    import cascade.scheduler.graph as sgraph
+    kind = rng.choice(["chain", "ladder", "zigzag"])
+    n_main = rng.randint(1500, 4000)
+    nodes, edges = [], []
+    main = [f"m{i}" for i in range(n_main)]
+    nodes += main
+    if kind == "chain":
+        edges += [(main[i], main[i + 1]) for i in range(n_main - 1)]
+    elif kind == "ladder":
+        edges += [(main[i], main[i + 2]) for i in range(n_main - 2)] + [(main[i], main[i + 1]) for i in range(0, n_main - 1, 2)]
+    else:   # zigzag: a weakly connected path whose edges alternate direction (many sources, many sinks)
+        edges += [(main[i], main[i + 1]) if i % 2 == 0 else (main[i + 1], main[i]) for i in range(n_main - 1)]
+    for c in range(rng.randint(0, 3)):
+        side = [f"s{c}x{i}" for i in range(rng.randint(1, 30))]
+        nodes += side
+        edges += [(side[rng.randrange(i)], side[i]) for i in range(1, len(side))]
+    nodes += [f"iso{i}" for i in range(rng.randint(0, 3))]
+    rng.shuffle(nodes)
+    rng.shuffle(edges)
+    edge_i, edge_o = defaultdict(set), defaultdict(set)
+    for a, b in edges:
+        edge_o[a].add(b)
+        edge_i[b].add(a)
+    col.count("large_partition_cases")
+    col.case(shape=("large", kind, n_main // 500, len(nodes) - n_main), nontrivial=True, sample={"kind": kind, "tasks": len(nodes), "edges": len(edges)})
+    wit = {"kind": kind, "main_component_tasks": n_main, "tasks": len(nodes)}
+    try:
+        got = list(sgraph.decompose(list(nodes), edge_i, edge_o))
+    except BaseException as e:  # noqa: BLE001 -- RecursionError included
+        if isinstance(e, (KeyboardInterrupt, SystemExit)):
+            raise
+        col.violation(f"decompose-raises-{type(e).__name__}:large-component", f"decompose raised {e!r:.120} on a valid DAG of {len(nodes)} tasks ({kind} of {n_main})", wit, index)
+        return
+    parent = {v: v for v in nodes}
+
+    def find(v):
+        while parent[v] != v:
+            parent[v] = parent[parent[v]]
+            v = parent[v]
+        return v
+    for a, b in edges:
+        parent[find(a)] = find(b)
+    want = defaultdict(set)
+    for v in nodes:
+        want[find(v)].add(v)
+    want_sets = sorted(map(frozenset, want.values()), key=len)
+    got_sets = sorted((frozenset(c) for c, _s in got), key=len)
+    if sum(len(c) for c, _s in got) != len(nodes) or set(got_sets) != set(want_sets):
+        col.violation("preschedule:components-differ:large-component", f"{len(got_sets)} components of sizes {[len(c) for c in got_sets][-4:]}, expected {[len(c) for c in want_sets][-4:]}", wit, index)
+        return
+    for comp, srcs in got:
+        if set(srcs) != {v for v in comp if not edge_i[v]}:
+            col.violation("preschedule:sources-differ:large-component", f"component of {len(comp)} tasks lists {len(srcs)} sources", wit, index)
+            return
+    col.count("components_checked", len(got))
+
+
 def run_shard(spec, col: Collector):
     import logging
     import icontract
@@ -135,6 +197,9 @@ def run_shard(spec, col: Collector):
             break
         if col.want(i):
             rng = case_rng(seed, shard, i)
+            if i % 150 == 7:
+                guarded(col, i, one_large_partition, col, rng, i)
+                continue
             mt = rng.choice([6, 12, 20, spec["max_tasks"]])
             guarded(col, i, one_case, col, rng, i, checked, mt)
 
